@@ -7,7 +7,7 @@ Import ListNotations.
 (** the save follows the atomic protocol, whatever byte chunks the pickler writes *)
 Lemma link_save_is_atomic chunks : Gen.Checkpoint.save_io chunks = atomic_save 1 0 chunks.
 Proof. reflexivity. Qed.
-Lemma link_save_shape chunks : is_atomic_shape 1 0 (Gen.Checkpoint.save_io chunks) false false = true.
+Lemma link_save_shape chunks : is_atomic_shape 1 0 (Gen.Checkpoint.save_io chunks) false false false = true.
 Proof. rewrite link_save_is_atomic. apply atomic_save_has_shape. discriminate. Qed.
 Lemma link_load_and_pool :
   Gen.Checkpoint.load_updates_state_manager_in_place = true
